@@ -8,7 +8,10 @@ package state
 //verif:bound accumulation: block of a coinbase plus 0..2 transactions with 2 inputs and 2 outputs each (BTM or another asset, arbitrary amounts below 2^60), arbitrary 2-byte proposer program, prior reward table of 0..2 entries (one of them possibly the proposer's) with arbitrary amounts below 2^62
 //verif:assume amounts below 2^60 / table entries below 2^62 (no wrap-around of fee sums; the BTM supply is below 2^58)
 //verif:outside the value of the subsidy: validatorReward / pledgeRate are float64 arithmetic, which the engine only executes on concrete operands; the harness runs the real validatorReward on a checkpoint with a concrete height and concrete vote totals (3 menus) and asserts only that exactly this value is added; its range [BlockReward/2, BlockReward] is NOT decided
+//verif:bound per-block step: Checkpoint.Increase on a block at height 201 or 300 (epoch end) made of a coinbase and one transaction with an arbitrary BTM spend input and plain output (amounts below 2^60, i.e. arbitrary fee) plus, from a menu of 6, a vote output and/or a veto input of concrete amounts (1e16..5e16 BTM-neu) for key A or a new key B; prior tally from a menu of 3 (empty; A=5e16, pledge rate 0.30; A=1.2e17, pledge rate 0.71 above the 0.5 threshold); arbitrary prior reward of the proposer below 2^62
+//verif:assume Increase ordering reference: the subsidy is the real validatorReward evaluated on a separately built checkpoint at the block's height whose vote map already contains this block's votes and vetoes (tally built by the harness: veto >= tally deletes, votes add)
 //verif:obligation fn=VerifC14Accumulate args=0,1;1,1;1,2;2,2 loops=5000 validate=12
+//verif:obligation fn=VerifC14Increase args=0;1;2 loops=5000 validate=12
 //verif:obligation fn=VerifC14Accumulate args=3,2 loops=5000 tier=thorough secs=3000 paths=2000000
 
 import (
@@ -104,4 +107,134 @@ func VerifC14Accumulate(nTx int, nPrior int) {
 	}
 	verifAssert(len(c.Rewards) == want, "no-other-entry-created")
 	verifReach("VerifC14Accumulate:end")
+}
+
+// ---------------------------------------------------------------------------
+// the whole per-block step: Checkpoint.Increase must tally the block's votes
+// first and compute the subsidy from the tally that includes them
+
+var (
+	verifC14KeyA = []byte{0xaa, 0x0a}
+	verifC14KeyB = []byte{0xbb, 0x0b}
+)
+
+func VerifC14Increase(priorMenu int) {
+	keyA, keyB := hex.EncodeToString(verifC14KeyA), hex.EncodeToString(verifC14KeyB)
+	prev := bc.Hash{V0: 0x1234, V3: 0x5678}
+	c := &Checkpoint{Hash: prev, Status: Growing, Rewards: map[string]uint64{}, Votes: map[string]uint64{}}
+	tallyA, tallyB := uint64(0), uint64(0)
+	switch priorMenu {
+	case 1:
+		tallyA = 50000000000000000
+	case 2:
+		tallyA = 120000000000000000
+	}
+	if tallyA != 0 {
+		c.Votes[keyA] = tallyA
+	}
+	height := uint64(201)
+	if verifBool("epochEnd") {
+		height = 300
+	}
+	c.Height = height - 1
+
+	proposer := verifBytesN("proposerProgram", 2)
+	proposerKey := hex.EncodeToString(proposer)
+	prior := uint64(0)
+	if verifBool("proposerListed") {
+		prior = verifU64("priorProposer")
+		verifAssume(prior < 1<<62)
+		c.Rewards[proposerKey] = prior
+	}
+
+	prog := []byte{0x51}
+	in0, out0 := verifU64("spendIn"), verifU64("plainOut")
+	verifAssume(in0 < 1<<60 && out0 < 1<<60)
+	ins := []*types.TxInput{types.NewSpendInput(nil, bc.Hash{V0: 1}, *consensus.BTMAssetID, in0, 0, prog, nil)}
+	outs := []*types.TxOutput{types.NewOriginalTxOutput(*consensus.BTMAssetID, out0, prog, nil)}
+	btmIn, btmOut := in0, out0
+	veto := func(amt uint64) {
+		ins = append(ins, types.NewVetoInput(nil, bc.Hash{V0: 2}, *consensus.BTMAssetID, amt, 1, prog, verifC14KeyA, nil))
+		btmIn += amt
+		if tallyA > amt {
+			tallyA -= amt
+		} else {
+			tallyA = 0
+		}
+	}
+	vote := func(toB bool, amt uint64) {
+		k := verifC14KeyA
+		if toB {
+			k = verifC14KeyB
+			tallyB += amt
+		} else {
+			tallyA += amt
+		}
+		outs = append(outs, types.NewVoteOutput(*consensus.BTMAssetID, amt, prog, k, nil))
+		btmOut += amt
+	}
+	// vetoes are inputs, votes are outputs of the same transaction: vetoes count first
+	switch verifChoice("action", 6) {
+	case 0:
+		vote(false, 10000000000000000)
+	case 1:
+		vote(true, 20000000000000000)
+	case 2:
+		veto(30000000000000000)
+	case 3:
+		veto(50000000000000000)
+	case 4:
+		veto(30000000000000000)
+		vote(true, 10000000000000000)
+	default:
+		vote(false, 20000000000000000)
+		vote(true, 20000000000000000)
+	}
+	fee := uint64(0)
+	if btmIn > btmOut {
+		fee = btmIn - btmOut
+	}
+	coinbase := &types.Tx{TxData: types.TxData{Version: 1,
+		Inputs:  []*types.TxInput{types.NewCoinbaseInput([]byte{0})},
+		Outputs: []*types.TxOutput{types.NewOriginalTxOutput(*consensus.BTMAssetID, 0, proposer, nil)},
+	}}
+	tx := &types.Tx{TxData: types.TxData{Version: 1, Inputs: ins, Outputs: outs}}
+	block := &types.Block{
+		BlockHeader:  types.BlockHeader{Version: 1, Height: height, PreviousBlockHash: prev, Timestamp: 1600000000000},
+		Transactions: []*types.Tx{coinbase, tx},
+	}
+
+	// reference subsidy: tally AFTER this block, at this block's height
+	after := &Checkpoint{Height: height, Votes: map[string]uint64{}}
+	if tallyA != 0 {
+		after.Votes[keyA] = tallyA
+	}
+	if tallyB != 0 {
+		after.Votes[keyB] = tallyB
+	}
+	subsidy := after.validatorReward()
+	before := &Checkpoint{Height: height, Votes: map[string]uint64{}}
+	for k, v := range c.Votes {
+		before.Votes[k] = v
+	}
+	subsidyBefore := before.validatorReward()
+	verifObserveU64("subsidy", subsidy)
+	verifObserveU64("subsidyBefore", subsidyBefore)
+
+	if subsidy != subsidyBefore {
+		verifReach("VerifC14Increase:subsidy-depends-on-this-blocks-votes")
+	} else {
+		verifReach("VerifC14Increase:subsidy-unchanged-by-this-block")
+	}
+
+	err := c.Increase(block)
+
+	verifAssert(err == nil, "increase-accepts-child-block")
+	verifAssert(c.Height == height, "height-advanced")
+	got := c.Rewards[proposerKey]
+	verifObserveU64("credited", got)
+	verifAssert(got == prior+fee+subsidy, "proposer-credited-fees-plus-subsidy-of-updated-tally")
+	verifAssert(len(c.Rewards) == 1, "no-other-entry-created")
+	verifAssert(c.Votes[keyA] == tallyA, "votes-tallied-exactly-once")
+	verifAssert(c.Votes[keyB] == tallyB, "votes-tallied-exactly-once")
 }
